@@ -13,7 +13,8 @@ EXPLANATION = ('Two configurations can only contradict each other where the code
                'for everything they hand on; the substitution steps exist only in the whole-frame branch (listed); (3) code that only some configurations execute keeps the '
                'shared invariants: every engine precedes its model-found exits by a complete theory check (C02 rules), every engine sets the conflict frame on '
                'assumption conflicts (C04 rule), SatELite (incremental mode off) respects frozen variables (C01 rule), conflict-clause minimisation (ccmin on, no proof '
-               'tracking) restores its scratch marks, and randomised choices draw from the configured seed only (C23 rule). That two paths compute the same answer is not decided.')
+               'tracking) restores its scratch marks, randomised choices draw from the configured seed only (C23 rule), and the ghost-variable engine keeps complete clause lists for '
+               'theory literals and never leaves a Boolean nested in an uninterpreted function undecided. That two paths compute the same answer is not decided.')
 
 COMMON_STEPS = ['preprocessAfterSubstitutions', 'addPreprocessedFormula', 'afterPreprocessing', 'rewriteMaxArity', 'giveToSolver']
 WHOLE_FRAME_ONLY = {'applyLearntSubstitutions': 'substitutions learnt on lower frames; disabled when partitions are tracked (computeSubstitutions asserts no proof logging)',
@@ -103,4 +104,63 @@ def run(src, tier, seed):
     r = res.rule('element-updates-reach-the-container', 'no range-based for over a by-value variable ends an iteration with an assignment to that variable that nothing reads (the update '
                  'was meant for the container element): all functions of the solver', floor=100)
     generic.dead_store_to_loop_copy(fx, res, r)
+    ghost_rules(fx, res)
     return res
+
+
+def ghost_rules(fx, res):
+    """The engine selected by :ghost-vars leaves a theory literal undecided when every clause containing it is satisfied.  The clause lists are filled when a
+    clause is attached (before solving starts) and consulted at decision time; if the producer drops clauses the consumer is asked about, or the consumer
+    calls a literal a ghost although the theory needs its value, atoms are never decided and an unsatisfiable input is answered sat (replayed twice on
+    the pinned tree: replays/C05).  Both functions are evaluated abstractly."""
+    from boolctor import Interp, Unmodelled, Thrown
+    r = res.rule('ghost-occurrence-lists', 'GhostSMTSolver::attachClause records an original clause under both of its theory literals whether or not the atoms have been declared to the theory '
+                 'yet (declaration happens in solve_, after the clauses are attached); GhostSMTSolver::isGhost answers "ghost" exactly when every recorded clause is satisfied, and never '
+                 'for a Boolean term nested in an uninterpreted function (it occurs in no clause, yet the congruence closure needs its value)', floor=8)
+    f = fx.func('opensmt::GhostSMTSolver::attachClause')
+    idx = {('a', False): 0, ('a', True): 1, ('b', False): 2, ('b', True): 3}
+    try:
+        for declared in (False, True):
+            for learnt in (False, True):
+                it = Interp(fx, f, '?', None)
+                lists = {0: [], 1: [], 2: [], 3: []}
+                it.oracle = {
+                    'attachClause': lambda i, a, n: None, 'learnt': lambda i, a, n, v=learnt: v, 'var': lambda i, a, n: ('var', a[0][1]),
+                    'toInt': lambda i, a, n: idx[(a[0][1], a[0][2])], 'isDeclared': lambda i, a, n, d=declared: d, 'isTheoryTerm': lambda i, a, n: True,
+                    'isTheorySymbol': lambda i, a, n: True, 'appearsInUF': lambda i, a, n: False,
+                    'varToTerm': lambda i, a, n: ('term', a[0][1]), 'getLogic': lambda i, a, n: ('logic',), 'getSymRef': lambda i, a, n: ('sym', a[0][1]),
+                }
+                it.run_env({'in_clause': ('cref', 7), 'this.ca': {('cref', 7): ('clause', [('lit', 'a', False), ('lit', 'b', True)])}, 'this.thLitToClauses': lists, 'CRef_Undef': ('cref', 'undef')})
+                got = {k: v for k, v in lists.items() if v}
+                want = {} if learnt else {0: [('cref', 7)], 3: [('cref', 7)]}
+                if learnt and got:
+                    res.ok(r, 'attachClause: learnt clause also recorded (harmless)')
+                elif got == want:
+                    res.ok(r, 'attachClause(%s clause, atoms %sdeclared): recorded under %s' % ('learnt' if learnt else 'original', '' if declared else 'not yet ', sorted(got) or 'nothing'))
+                else:
+                    res.bad(r, 'ghost-clause-not-recorded', fx.loc(f), 'GhostSMTSolver::attachClause, original clause (a, not b) over theory atoms that are %sdeclared to the theory: recorded under '
+                            'literal indices %s instead of [0, 3]; atoms are declared only in solve_, so the clause lists stay empty, every theory literal counts as a ghost and is never '
+                            'decided (:ghost-vars true answers sat on unsatisfiable input)' % ('' if declared else 'not yet ', sorted(got)))
+        g = fx.func('opensmt::GhostSMTSolver::isGhost')
+        for nested in (False, True):
+            for sats in ([], [True], [False], [True, False], [True, True]):
+                it = Interp(fx, g, '?', None)
+                crefs = [('cref', k) for k in range(len(sats))]
+                it.oracle = {
+                    'isDeclared': lambda i, a, n: True, 'var': lambda i, a, n: ('var', a[0][1]), 'toInt': lambda i, a, n: 0,
+                    'satisfied': lambda i, a, n, sats=sats: sats[a[0][1]], 'appearsInUF': lambda i, a, n, v=nested: v,
+                    'varToTerm': lambda i, a, n: ('term', a[0][1]), 'getLogic': lambda i, a, n: ('logic',), 'swap': lambda i, a, n: None,
+                }
+                out = it.run_env({'l': ('lit', 'a', False), 'this.ca': {c: c for c in crefs}, 'this.thLitToClauses': {0: list(crefs)}})
+                want = (not nested) and all(sats)
+                if out is want:
+                    res.ok(r, 'isGhost(%s literal, clauses satisfied: %s) = %s' % ('nested Boolean' if nested else 'theory', sats, out))
+                elif nested:
+                    res.bad(r, 'ghost-nested-boolean', fx.loc(g), 'GhostSMTSolver::isGhost calls a Boolean term nested in an uninterpreted function a ghost (recorded clauses satisfied: %s): it occurs in no '
+                            'clause, is never decided, and the congruence closure never learns its value' % sats)
+                else:
+                    res.bad(r, 'ghost-test-wrong', fx.loc(g), 'GhostSMTSolver::isGhost answers %s for a theory literal whose recorded clauses are satisfied as %s' % (out, sats))
+    except Thrown:
+        raise AnalysisBroken('GhostSMTSolver::attachClause / isGhost throws on the abstract input')
+    except Unmodelled as e:
+        raise AnalysisBroken('GhostSMTSolver::attachClause / isGhost is outside the modelled subset: %s' % e)
